@@ -104,7 +104,38 @@ def run(args):
     return dict(m, status="survived-tests", caught=caught)
 
 
+def recheck(args):
+    """re-run only the rule sets on a mutant already known to pass the crate's tests"""
+    k, m = args
+    w = os.path.join(ROOT, "r%d" % os.getpid())
+    os.makedirs(w, exist_ok=True)
+    subprocess.run(["rsync", "-a", "--delete", "--exclude", "target", "--exclude", ".git", REPO + "/", w + "/"], check=True)
+    p = os.path.join(w, m["file"])
+    lines = open(p).read().split("\n")
+    if lines[m["line"]] != m["old"]:
+        return dict(m, status="stale")
+    lines[m["line"]] = m["new"]
+    open(p, "w").write("\n".join(lines))
+    import engine
+    facts = engine.extract(w)
+    caught = {}
+    for i in range(1, 19):
+        prop = "C%02d" % i
+        obl, new, listed = engine.run_property(prop, "quick", facts_path=facts, quiet=True, write_evidence=False)
+        if new:
+            caught[prop] = [o["key"] for o in new][:3]
+    os.remove(facts)
+    return dict(m, was=sorted(m.get("caught") or {}), caught=caught)
+
+
 if __name__ == "__main__":
+    if sys.argv[1] == "recheck":
+        old = [m for m in json.load(open(sys.argv[2])) if m["status"] == "survived-tests"]
+        with ProcessPoolExecutor(NW) as ex:
+            for r in ex.map(recheck, list(enumerate(old))):
+                now = sorted(r["caught"])
+                print("%-9s was %-28s now %-28s %s:%d  %s" % ("CHANGED" if now != r["was"] else "same", r["was"], now, r["file"], r["line"] + 1, r["new"].strip()[:80]), flush=True)
+        sys.exit(0)
     n = int(sys.argv[1])
     seed = int(sys.argv[2]) if len(sys.argv) > 2 else 1
     sub = sys.argv[3] if len(sys.argv) > 3 else ""
